@@ -7,7 +7,7 @@
 (* in-process; token equalities are computed by the observer (they are     *)
 (* relations between two real expansions, no expected content).            *)
 (***************************************************************************)
-EXTENDS DxAttrs, Json, IOUtils
+EXTENDS DxExpand, Json, IOUtils
 
 Rec == ndJsonDeserialize(IOEnv.TRACE)
 
@@ -74,8 +74,27 @@ ExplainsDump(e) ==
 
 ExplainsImplDump(e) == e.is_error /\ e.payload_ok /\ e.item_equal
 
+(***************************************************************************)
+(* Own errors (DxExpand): whole-derivation failure vs per-entry failure.   *)
+(* e.nimpl / e.nerr: impl groups and compile_error items of the expansion; *)
+(* e.classes: per listed trait "impl" | "error" (only when not whole).     *)
+(***************************************************************************)
+ExplainsOwn(e) ==
+    IF WholeError(e.P)
+    THEN /\ e.nimpl = 0 /\ e.nerr >= 1                     \* refused as a whole, with a message
+         /\ (e.entry = "attr" /\ e.P.kind \in {"struct", "enum", "union", "other"} => e.item_present)
+    ELSE /\ e.classes = EntryClasses(e.P)
+         /\ (e.entry = "attr" => e.item_present)
+
+ExplainsOwnImpl(e) ==
+    /\ e.item_present /\ e.item_equal                        \* the user's impl is always re-emitted unchanged
+    /\ IF ImplError(e.I) THEN e.nimpl = 0 /\ e.nerr = 1
+       ELSE e.nerr = 0 /\ e.nimpl = ImplCount(e.I)
+
 Explains(e) ==
     CASE e.ev = "strip"    -> ExplainsStrip(e)
+      [] e.ev = "own"      -> ExplainsOwn(e)
+      [] e.ev = "ownimpl"  -> ExplainsOwnImpl(e)
       [] e.ev = "implitem" -> ExplainsImplItem(e)
       [] e.ev = "equiv"    -> ExplainsEquiv(e)
       [] e.ev = "total"    -> ExplainsTotal(e)
